@@ -493,7 +493,8 @@ def subscript_load(eng, st, base, sl, node):
         i = eng.norm_index(st, to_int(iv), n, node)
         v = eng.list_get(st, base, i)
         if is_ref_kind(v.k) and st.ghost.get('qdepth', 0) == 0:
-            st.assume(z3.And(v.t >= 0, v.t < st.heap.bound('el:ref')))
+            b = st.heap.bound('el:ref')
+            st.assume(z3.And(v.t >= 0, v.t < st.heap.alloc, z3.Implies(base.t < b, v.t < b)))
         return v
     if head == 'arr':
         return arr_load(eng, st, base, sl, node)
@@ -1258,3 +1259,56 @@ def ddict_get(eng, st, base, key, node):
     st.heap.wr('el:ref', base.t, z3.Store(tbl, key, used_ref))
     st.assume(z3.And(cur >= 0, cur < fresh))
     return Val(('list', 'int'), used_ref)
+
+
+# ---------------------------------------------------------------- statistics (assumed, uninterpreted)
+@model('numpy.cov')
+def np_cov(eng, st, args, kw, node):
+    """ASSUMED: np.cov(M, bias=b) with M of shape (variables, observations): the (variables x variables) sample
+    covariance, dividing by n_obs when b is true and by n_obs - 1 otherwise.  Recorded as cov_uf(M, vars, obs, b)."""
+    v = args[0]
+    if len(args) != 1 or set(kw) - {'bias'} or not (isinstance(v.k, tuple) and v.k[0] == 'arr' and v.k[1] == 2):
+        raise Unsupported("np.cov form")
+    used(eng, "np.cov(M, bias=b): rows of M are variables; result[i,j] = sum_t (M[i,t]-mean_i)(M[j,t]-mean_j) / (n if b else n-1); "
+              "an uninterpreted function of (contents, shape, b)")
+    b = truth(kw['bias']) if 'bias' in kw else z3.BoolVal(False)
+    sh = eng.arr_shape(st, v)
+    f = eng.uf('cov_uf', z3.ArraySort(I, I, R), I, I, B, z3.ArraySort(I, I, R))
+    return eng.mk_arr(st, 2, 'real', [sh[0], sh[0]], f(eng.arr_data(st, v), sh[0], sh[1], b))
+
+
+@model('numpy.mean')
+def np_mean(eng, st, args, kw, node):
+    v = args[0]
+    if isinstance(v.k, tuple) and v.k[0] == 'arr' and v.k[1] == 2 and set(kw) == {'axis'}:
+        ax = z3.simplify(to_int(kw['axis']))
+        if z3.is_int_value(ax) and ax.as_long() == 0:
+            used(eng, "np.mean(A, axis=0): vector of column means, an uninterpreted function of (contents, shape)")
+            sh = eng.arr_shape(st, v)
+            f = eng.uf('colmean_uf', z3.ArraySort(I, I, R), I, I, z3.ArraySort(I, R))
+            return eng.mk_arr(st, 1, 'real', [sh[1]], f(eng.arr_data(st, v), sh[0], sh[1]))
+    if isinstance(v.k, tuple) and v.k[0] in ('arr', 'list') and not kw and len(args) == 1:
+        used(eng, "np.mean / np.median of all entries: uninterpreted functions of (contents, shape)")
+        return vreal(_agg(eng, st, v, 'mean'))
+    raise Unsupported("np.mean form")
+
+
+def _agg(eng, st, v, name):
+    if v.k[0] == 'list':
+        if elem_tag(v.k[1]) != 'real':
+            raise Unsupported("%s of list of %r" % (name, v.k[1]))
+        f = eng.uf(name + '_1d', z3.ArraySort(I, R), I, R)
+        return f(eng.list_arr(st, v), eng.list_len(st, v))
+    d = eng.arr_data(st, v)
+    sh = eng.arr_shape(st, v)
+    f = eng.uf('%s_%dd' % (name, v.k[1]), d.sort(), *([I] * v.k[1] + [R]))
+    return f(d, *sh)
+
+
+@model('numpy.median')
+def np_median(eng, st, args, kw, node):
+    v = args[0]
+    if kw or len(args) != 1 or not (isinstance(v.k, tuple) and v.k[0] in ('arr', 'list')):
+        raise Unsupported("np.median form")
+    used(eng, "np.mean / np.median of all entries: uninterpreted functions of (contents, shape)")
+    return vreal(_agg(eng, st, v, 'median'))
